@@ -51,7 +51,7 @@ def run(rep, tier, seed):
             chk.generate('gen3', gen_consts(3, Classes=[K('K1')], Draws=['low'], InCalls=[('ia2', 1)],
                                             OutAliases=['oa2']),
                          cassettes=('memory', 'async'), n_conc=1, sample=1500)
-            chk.generate('gen3runs', runs3_consts(), cassettes=('memory', 'file'), n_conc=1, sample=2000)
+            chk.generate('gen3runs', runs3_consts(), cassettes=('memory', 'file'), n_conc=1, sample=2000, cap=5000)
             rep.exhaustive = bool(ex)
         else:
             chk.check('chk', gen_consts(4, Vals=['v1', 'v2']), invariants=INVS, timeout=3000)
